@@ -3,6 +3,7 @@
 
 use crate::rng::Fnv;
 use crate::sched::{self, with_ctx, Ctx, SchedConfig, SchedStats, Scheduler, Segment, SimCancel, Strategy, NO_OBJ, NSITES};
+use crate::json::J;
 use crate::world::*;
 use regress::{Match, Regex};
 use std::cell::RefCell;
@@ -187,6 +188,8 @@ pub struct ModelAns {
 
 #[derive(Default, Clone, Debug)]
 pub struct ModelStats {
+    pub pristine_queries: u64,
+    pub pristine_unknown: u64,
     pub calls: u64,
     pub memo_hits: u64,
     pub out_of_fuel: u64,
@@ -197,11 +200,13 @@ pub struct Model<'w> {
     world: &'w World,
     memo: Mutex<HashMap<(u32, String, usize), ModelAns>>,
     pub stats: Mutex<ModelStats>,
+    /// (description, pristine answer, in-process answer)
+    pub pristine_viols: Mutex<Vec<(String, String, String)>>,
 }
 
 impl<'w> Model<'w> {
     pub fn new(world: &'w World) -> Self {
-        Model { world, memo: Mutex::new(HashMap::new()), stats: Mutex::new(ModelStats::default()) }
+        Model { world, memo: Mutex::new(HashMap::new()), stats: Mutex::new(ModelStats::default()), pristine_viols: Mutex::new(Vec::new()) }
     }
 
     /// FIRST(regex, text, cursor): a brand-new search on a freshly compiled,
@@ -239,6 +244,30 @@ impl<'w> Model<'w> {
             let mut st = self.stats.lock().unwrap();
             st.calls += 1;
             st.steps += steps;
+        }
+        // Pristine-process oracle (sampled worlds): the same one-shot search in a process
+        // with no history at all must give the same answer as here.
+        if self.world.knobs.pristine && crate::pristine::available() {
+            if let Some(inproc) = &ans.outcome {
+                let req = J::obj()
+                    .set("k", J::s("first"))
+                    .set("pattern", J::s(&spec.pattern))
+                    .set("flags", J::s(&spec.flags))
+                    .set("exec", J::s(if spec.exec == ExecKind::Pike { "pikevm" } else { "backtrack" }))
+                    .set("input", J::s(if spec.input == InputKind::Ascii { "ascii" } else { "utf8" }))
+                    .set("text", J::s(text))
+                    .set("cursor", J::u(cursor as u64))
+                    .set("fuel", J::u(fuel));
+                self.stats.lock().unwrap().pristine_queries += 1;
+                match crate::pristine::query(&req.to_string()) {
+                    Some(p) if !p.starts_with('?') => {
+                        if p != *inproc {
+                            self.pristine_viols.lock().unwrap().push((format!("first match of /{}/{} ({:?},{:?}) on {:?} from {}", spec.pattern, spec.flags, spec.exec, spec.input, text, cursor), p, inproc.clone()));
+                        }
+                    }
+                    _ => self.stats.lock().unwrap().pristine_unknown += 1,
+                }
+            }
         }
         self.memo.lock().unwrap().insert(key, ans.clone());
         ans
@@ -1061,6 +1090,27 @@ impl<'a> Client<'a> {
                     // Reference-pass self check: the same one-shot op on a private copy of the
                     // haystack (fresh address) with freshly compiled Regex objects must give the
                     // same answer; otherwise the result depended on history or buffer identity.
+                    if self.sh.kind == PassKind::Fresh && world.knobs.pristine && crate::pristine::available() {
+                        if let Some(req) = self.pristine_request(op, &armed) {
+                            self.sh.model.stats.lock().unwrap().pristine_queries += 1;
+                            match crate::pristine::query(&req) {
+                                Some(p) if !p.starts_with('?') => {
+                                    if p != s {
+                                        self.c09.push(C09Viol {
+                                            property: "C19",
+                                            pass: self.sh.pass_no,
+                                            thread: self.tid,
+                                            op: i,
+                                            clause: "result-depends-on-process-history",
+                                            expected: format!("{} (same op in a pristine process)", p),
+                                            observed: s.clone(),
+                                        });
+                                    }
+                                }
+                                _ => self.sh.model.stats.lock().unwrap().pristine_unknown += 1,
+                            }
+                        }
+                    }
                     if self.sh.kind == PassKind::Fresh {
                         if let Some(shadow) = self.shadow_oneshot(&armed) {
                             if shadow != s {
@@ -1081,6 +1131,34 @@ impl<'a> Client<'a> {
                 _ => unreachable!("armed/out mismatch"),
             },
         }
+    }
+
+    /// The one-op world sent to a pristine grandchild for a one-shot op.
+    fn pristine_request(&self, op: &Op, a: &Armed) -> Option<String> {
+        let text: &str = match a {
+            Armed::Find(_, _, t) | Armed::Replace(_, _, t, _, _) | Armed::Nested(_, _, t, _, _) | Armed::Compile(_, t) => t,
+            _ => return None,
+        };
+        let shared = |r: &ReRef| -> ReRef {
+            match r {
+                ReRef::Shared(i) => ReRef::Shared(*i % self.sh.world.regexes.len() as u32),
+                ReRef::Clone(c) => ReRef::Shared(self.clone_src(*c)),
+            }
+        };
+        let kind = match &op.kind {
+            OpKind::Find { re, .. } => OpKind::Find { re: shared(re), hay: 0 },
+            OpKind::Replace { re, tpl, all, .. } => OpKind::Replace { re: shared(re), hay: 0, tpl: tpl.clone(), all: *all },
+            OpKind::ReplaceNested { re, inner, .. } => OpKind::ReplaceNested { re: shared(re), hay: 0, inner: shared(inner) },
+            OpKind::Compile { re, .. } => OpKind::Compile { re: *re % self.sh.world.regexes.len() as u32, hay: 0 },
+            _ => return None,
+        };
+        let w = World {
+            regexes: self.sh.world.regexes.clone(),
+            hays: vec![Hay { text: text.to_string(), owner: None }],
+            threads: vec![vec![Op { kind, cancel_at: 0 }]],
+            knobs: Knobs { fuel: self.sh.world.knobs.fuel.saturating_mul(10), strategy: Strategy::Serial, sched_seed: 0, max_switches: 0, pristine: false },
+        };
+        Some(w.to_json(&[]).set("k", J::s("op")).to_string())
     }
 
     /// Re-run a one-shot op in model mode on a private copy of its haystack with freshly
@@ -1453,6 +1531,64 @@ fn compare(world: &World, a: &PassRes, b: &PassRes, bno: u8, clause: &str, viols
     }
 }
 
+/// Runs in a pristine grandchild (see pristine.rs): answer one query and return.
+pub fn pristine_handler(req: &str) -> String {
+    let j = match crate::json::parse(req) {
+        Ok(j) => j,
+        Err(_) => return "?bad-request".into(),
+    };
+    sched::install_hook();
+    install_panic_hook();
+    match j.get("k").and_then(|v| v.as_str()) {
+        Some("first") => {
+            let spec = RegexSpec {
+                pattern: j.get("pattern").and_then(|v| v.as_str()).unwrap_or("").to_string(),
+                flags: j.get("flags").and_then(|v| v.as_str()).unwrap_or("").to_string(),
+                exec: if j.get("exec").and_then(|v| v.as_str()) == Some("pikevm") { ExecKind::Pike } else { ExecKind::Backtrack },
+                input: if j.get("input").and_then(|v| v.as_str()) == Some("ascii") { InputKind::Ascii } else { InputKind::Utf8 },
+            };
+            let text = j.get("text").and_then(|v| v.as_str()).unwrap_or("").to_string();
+            let cursor = j.get("cursor").and_then(|v| v.as_u64()).unwrap_or(0) as usize;
+            let fuel = j.get("fuel").and_then(|v| v.as_u64()).unwrap_or(100_000);
+            let ctx = Ctx::new(0, std::ptr::null());
+            let text_static: &'static str = unsafe { &*(text.as_str() as *const str) };
+            with_ctx(&ctx, |_| {
+                let (r, _) = model_mode(fuel, || {
+                    let re = match compile(&spec) {
+                        Ok(re) => re,
+                        Err(e) => return Err(e),
+                    };
+                    let mut it = open_iter(&re, &spec, text_static, cursor);
+                    let m = it.next();
+                    drop(it);
+                    Ok(m)
+                });
+                match r {
+                    Ok(Ok(Some(m))) => fmt_match(&m),
+                    Ok(Ok(None)) => "None".into(),
+                    Ok(Err(e)) => format!("NoRegex({})", e),
+                    Err(None) => "?out-of-fuel".into(),
+                    Err(Some(msg)) => format!("Panicked({})", msg),
+                }
+            })
+        }
+        Some("op") => {
+            let (w, _) = match World::from_json(&j) {
+                Ok(x) => x,
+                Err(_) => return "?bad-world".into(),
+            };
+            ONLY_PASS1.store(true, std::sync::atomic::Ordering::Relaxed);
+            let e = execute(&w, None);
+            match e.p1.recs.first().and_then(|t| t.first()) {
+                Some(r) if r.fault == Fault::None => r.outcome.clone(),
+                Some(_) => "?fault".into(),
+                None => "?no-op".into(),
+            }
+        }
+        _ => "?unknown-kind".into(),
+    }
+}
+
 /// Crash triage: run only the sequential Fresh pass (passes 2 and 3 are skipped).
 pub static ONLY_PASS1: std::sync::atomic::AtomicBool = std::sync::atomic::AtomicBool::new(false);
 
@@ -1540,6 +1676,17 @@ pub fn execute(world: &World, explicit: Option<&[Segment]>) -> Exec {
                 observed: v.observed.clone(),
             });
         }
+    }
+    for (what, pristine, inproc) in model.pristine_viols.lock().unwrap().iter() {
+        viols.push(Violation {
+            property: "C19",
+            clause: "result-depends-on-process-history".into(),
+            pass: 0,
+            thread: 0,
+            op: 0,
+            expected: format!("{} (pristine process): {}", pristine, what),
+            observed: inproc.clone(),
+        });
     }
     let mut ev = Fnv::default();
     ev.u64(p1.ev);
